@@ -320,7 +320,7 @@ func blockOnListChangeWorker(
 
 	verifPoint("before-register", ctx.cs)
 	ws := blockFn()
-	defer ctx.dsc.ds.leaveListBlock(ws)
+	defer func() { ctx.dsc.ds.leaveListBlock(ws) }()
 	verifPoint("after-register", ctx.cs)
 
 	// with notification registered, try operation again immediately
@@ -369,7 +369,15 @@ func blockOnListChangeWorker(
 		if output.data != nil {
 			return
 		}
-		// a different client obtained the list element before this client could, so try again
+		// a different client obtained the list element before this client could, so try again:
+		// the wake-up removed this client from the wait lists, so it has to register anew (and
+		// look once more, as on entry) or later pushes would not wake it
+		ctx.dsc.ds.leaveListBlock(ws)
+		ws = blockFn()
+		output = op()
+		if output.data != nil {
+			return
+		}
 		verifPoint("after-failed-retry", ctx.cs)
 	}
 }
